@@ -50,3 +50,9 @@ Definition origin (ps : list part) (j : nat) (e e' : elem) : Prop :=
 Definition all_notes (ps : list part) : list note := flat_map (fun p => notes_of (fst p)) ps.
 Definition ties_ok (ps : list part) : Prop :=
   NoDup (map n_oid (all_notes ps)) /\ Forall (fun p => wf_ties (notes_of (fst p))) ps.
+
+(* row r of the merged part's note array (with staff) stands for the Note / GraceNote element e of
+   the merged part: onset, pitch, staff (0 when missing) and voice columns are the element's *)
+Definition row_of_elem (r : row) (e : elem) : Prop :=
+  (e_kind e = KNote \/ e_kind e = KGrace) /\ r_onset r = e_start e /\ r_pitch r = e_pitch e /\
+  r_staff r = oz (e_staff e) 0 /\ (forall v, e_voice e = Some v -> v <> -1 -> r_voice r = v).
